@@ -30,3 +30,24 @@ def classify(prop, v, known):
         except Exception:
             continue
     return None
+
+
+# ---- union leniency (C01 C02 C07 C08) -------------------------------------------------------
+
+@classifier("union-marshal-lenient-member")
+def _union_marshal_lenient(prop, v):
+    """The union marshaller's first acceptor is a member the value is NOT an instance of (str()/isoformat()/cast
+    based leaf marshallers accept foreign values), and the wire it emits is not read back."""
+    return (v.get("pos_desc") == "union" and (v.get("m_owner") is False or v.get("y_m_owner") is False)
+            and v.get("kind") in ("raised", "union-fixpoint-broken", "union-no-member-accepts-wire", "fixpoint-broken",
+                                   "entrypoints-disagree", "decode-raised"))
+
+
+@classifier("union-unmarshal-lossy-acceptor")
+def _union_unmarshal_lossy(prop, v):
+    """The value was marshalled by its own member, but an EARLIER member's unmarshaller accepts that wire form and
+    coerces it to something that member alone does not marshal back to the same wire (e.g. '1' -> time 00:00:01,
+    date text -> datetime): the weak fixpoint law fails through the member's own lossy acceptance."""
+    return (v.get("pos_desc") == "union" and v.get("kind") in ("union-fixpoint-broken", "fixpoint-broken")
+            and v.get("m_owner") is True and v.get("um_reproduces") is False
+            and v.get("um_member") not in (None, v.get("m_member")))
